@@ -54,6 +54,10 @@ def build(spec):
             txt = spec["retext"][1]
             if rems and isinstance(txt, str) and txt and txt == " ".join(txt.split()):
                 rems[spec["retext"][0] % len(rems)].text = txt
+        if kind == "acl" and spec.get("set_indent") is not None:
+            if spec["set_indent"] not in ("", " ", "   ", "\t"):
+                raise Invalid()
+            acl.indent = spec["set_indent"]
         if kind == "acl":
             if spec.get("block") and not acl_case.get("group_by") and len(acl.items) >= 1:
                 # an explicit block with its OWN prefix / name among the plain entries of an ungrouped ACL
@@ -125,6 +129,10 @@ def build(spec):
         for j, m in enumerate(grp.items):
             m.note = Note(["member", j])
         # reordered in place before it is copied (numbered members no longer in the order of their numbers)
+        if spec.get("set_indent") is not None:
+            if spec["set_indent"] not in ("", " ", "   ", "\t"):
+                raise Invalid()
+            grp.indent = spec["set_indent"]  # assigned after construction
         pre = spec.get("pre")
         if pre == "reverse":
             grp.items.reverse()
@@ -421,6 +429,8 @@ def obj_st(draw, small_acl=False):
                                  "addrgroup", "port", "protocol", "option", "wildcard"]))
     platform = draw(st.sampled_from(["ios", "nxos"]))
     spec = {"kind": kind, "platform": platform}
+    if kind in ("acl", "addrgroup") and draw(st.sampled_from(range(4))) == 1:
+        spec["set_indent"] = draw(st.sampled_from(["", "", " ", "   ", "\t"]))
     if kind in ("ace", "address", "addrgroup") and draw(st.sampled_from([True, False])):
         spec["max_ncwb"] = draw(st.sampled_from([8, 20, 30]))
     if kind in ("acl", "acegroup"):
